@@ -47,6 +47,9 @@ def items(seed):
         I("p_tcp_eq", X("permit", 6, al["net24"], none, al["any"], G.PortX("eq", (p,)))),
         I("p_tcp_range", X("permit", 6, al["host1"], none, al["any"], G.PortX("range", (p - 5, p + 5)))),
         I("d_tcp_eq", X("deny", 6, al["any"], none, al["any"], G.PortX("eq", (p,)))),
+        I("p_grp_both", X("permit", 0, gr["GH"], none, gr["GE"], none)),
+        I("p_host_to_host", X("permit", 0, al["host1"], none, al["host2"], none)),
+        I("p_tcp_multi", X("permit", 6, al["any"], none, al["any"], G.PortX("eq", (p - 5, p + 5)))),
         I("d_proto200", X("deny", 200, al["any"], none, al["any"], none)),
         I("d_proto201", X("deny", 201, al["net24"], none, al["any"], none)),
         I("remark", None, "plain text"),
@@ -55,7 +58,7 @@ def items(seed):
     ]
 
 
-SHADOW_ONLY = [0, 1, 2, 3, 4, 5, 8, 10, 11, 12]  # the items that can shadow each other (longer lists)
+SHADOW_ONLY = [0, 1, 2, 3, 4, 8, 10, 13, 14]  # the items that can shadow each other (longer lists)
 
 
 def _L(tier):
@@ -100,7 +103,7 @@ def run_unit(unit, ctx):
     if unit["kind"] == "lists":
         for ln in range(3, _L(ctx.tier) + 1):
             for rest in product(range(n), repeat=ln - 2):
-                for var in (VARIANTS[:3] if ctx.tier == "quick" else VARIANTS[:4]):
+                for var in (VARIANTS[:2] if ctx.tier == "quick" else VARIANTS[:4]):
                     check_acl("ios", first + rest, var, ctx)
                 if ctx.tier == "thorough" and ln == 3:
                     check_acl("nxos", first + rest, VARIANTS[0], ctx)
@@ -124,7 +127,7 @@ def replay(case, ctx):
 def check_acl(platform, idx, var, ctx):
     its = items(ctx.seed)
     lst = [its[i] for i in idx]
-    if not any(it.is_ace for it in lst):
+    if not any(it.is_ace for it in lst) or any(it.is_ace and not it.acex.valid(platform) for it in lst):
         return
     ctx.ev()
     case = dict(kind="acl", platform=platform, idx=list(idx), variant=var,
